@@ -1711,3 +1711,83 @@ def check_backend_owned(ctx):
                               f'{txt(call)[:50]} built per call of '
                               f'{func.name}', at=func.where(call))
     ctx.floor('BACKEND-OWNED', n, 1, 'constructions of a backend')
+
+
+# ----------------------------------------------------- BACKEND-STATELESS ---
+
+_STATE_MUTATORS = {'append', 'extend', 'add', 'update', 'setdefault',
+                   'insert', 'pop', 'remove', 'discard', 'appendleft'}
+
+
+def check_backend_stateless(ctx):
+    """One backend object serves several schedule() calls (possibly of
+    different graphs): what the master remembers about a graph - dependency
+    lists per task name, "dependencies still blocking a task" - belongs to ONE
+    call.  An attribute of the backend filled while scheduling and never
+    reset at the start of execute_tasks makes the next run decide with the
+    dependencies / blockers of the previous one: a task starts while a
+    dependency is still running, or is skipped for a dependency it does not
+    have."""
+    program = ctx.program
+    n = 0
+    for klass in program.all_classes():
+        if not klass.module.name.startswith(BACKENDS) or \
+                klass.parent_cls is not None:
+            continue
+        exe = klass.methods.get('execute_tasks')
+        if exe is None:
+            continue
+        program.consulted.add(klass.module.relpath)
+        reset = set()
+        for node in walk_local(exe.node):
+            if isinstance(node, ast.Assign):
+                for tgt in node.targets:
+                    if isinstance(tgt, ast.Attribute) and dotted(
+                            tgt.value) == 'self':
+                        reset.add(tgt.attr)
+            if isinstance(node, ast.Call) and call_name(node) == 'clear' \
+                    and isinstance(receiver(node), ast.Attribute) and \
+                    dotted(receiver(node).value) == 'self':
+                reset.add(receiver(node).attr)
+        filled = {}
+        for meth in klass.methods.values():
+            if meth.name == '__init__':
+                continue
+            for node in walk_local(meth.node):
+                attr = None
+                if isinstance(node, ast.Call) and call_name(node) in \
+                        _STATE_MUTATORS:
+                    recv = receiver(node)
+                    while isinstance(recv, ast.Subscript):
+                        recv = recv.value
+                    if isinstance(recv, ast.Attribute) and dotted(
+                            recv.value) == 'self':
+                        attr = recv.attr
+                elif isinstance(node, (ast.Assign, ast.AugAssign)):
+                    tgts = node.targets if isinstance(node, ast.Assign) \
+                        else [node.target]
+                    for tgt in tgts:
+                        base = tgt
+                        while isinstance(base, ast.Subscript):
+                            base = base.value
+                        if base is not tgt and isinstance(
+                                base, ast.Attribute) and dotted(
+                                    base.value) == 'self':
+                            attr = base.attr
+                if attr is not None:
+                    filled.setdefault(attr, (meth, node))
+        n += 1
+        for attr, (meth, node) in sorted(filled.items()):
+            ctx.decide('BACKEND-STATELESS', meth,
+                       f'{klass.name}.{attr} (filled in {meth.name}) is '
+                       f'reset by execute_tasks', attr in reset,
+                       at=meth.where(node),
+                       detail=None if attr in reset else
+                       'survives the call: the next schedule() on the same '
+                       'backend decides with what this one left')
+        if not filled:
+            ctx.holds('BACKEND-STATELESS', klass.node.name,
+                      f'{klass.name}: no attribute is filled while '
+                      f'scheduling', nontrivial=False)
+    ctx.floor('BACKEND-STATELESS', n, 1, 'backend classes with '
+              'execute_tasks')
